@@ -8,6 +8,10 @@ EXTENDS GraphEnum, TLC, Json, IOUtils, SequencesExt
 CONSTANTS NU, ND, AllNodes
 
 Props == << <<1, 4>>, <<1, 2>>, <<3, 4>> >>
+\* every fourth case: weights 1.1 / 1.7 / 2.5 (no closed neighbourhood sums to 2 or 4, where the measures
+\* corrected for typical weight 2 are singular) and proportions 3/10, 1/2, 7/10 (not representable in binary;
+\* in thousandths two successive splits stay integral)
+Props10 == << <<3, 10>>, <<1, 2>>, <<7, 10>> >>
 Graphs == UNION {{<<"und", A, 0>> : A \in Und(n)} : n \in 1..NU}
           \cup UNION {{<<"dir", A, 1>> : A \in Dir(n)} : n \in 2..ND}
           \cup {<<"fam", A, 0>> : A \in Fam}
@@ -15,9 +19,13 @@ Vs(A) == IF AllNodes THEN 1..Len(A) ELSE {(HashA(A) % Len(A)) + 1, ((HashA(A) \d
 Mk(g, v, pi) ==
   LET A == g[2]  n == Len(A)  h == HashA(A) + v + pi
       v2 == IF h % 3 = 0 THEN n + 1 ELSE IF h % 3 = 1 THEN v ELSE ((h \div 3) % n) + 1
-  IN [blk |-> g[1], n |-> n, directed |-> g[3], A |-> A, w |-> [k \in 1..n |-> 16 * Wt(A)[k]], wden |-> 16,
-      v |-> v, pn |-> Props[pi][1], pd |-> Props[pi][2],
-      v2 |-> v2, p2n |-> Props[((h \div 2) % 3) + 1][1], p2d |-> Props[((h \div 2) % 3) + 1][2],
+      tenths == (h \div 5) % 4 = 3
+      P == IF tenths THEN Props10 ELSE Props
+  IN [blk |-> g[1], n |-> n, directed |-> g[3], A |-> A,
+      w |-> [k \in 1..n |-> IF tenths THEN <<1100, 1700, 2500>>[Wt(A)[k]] ELSE 16 * Wt(A)[k]],
+      wden |-> IF tenths THEN 1000 ELSE 16,
+      v |-> v, pn |-> P[pi][1], pd |-> P[pi][2],
+      v2 |-> v2, p2n |-> P[((h \div 2) % 3) + 1][1], p2d |-> P[((h \div 2) % 3) + 1][2],
       src |-> SetToSeq(Src(n)), tgt |-> SetToSeq((1..n) \ Src(n))]
 Cases == SetToSeq(UNION {{Mk(g, v, pi) : v \in Vs(g[2]), pi \in 1..3} : g \in Graphs})
 Numbered == [k \in 1..Len(Cases) |-> [case |-> "n" \o ToString(k)] @@ Cases[k]]
